@@ -9,6 +9,7 @@ import Rare.Proofs.C18Cache
 import Rare.Proofs.C18Hist
 import Rare.Proofs.C18Name
 import Rare.Proofs.C18Offset
+import Rare.Proofs.C18DurRT
 import Rare.Gen.C18
 /-!
 # C18 – Time helpers agree with the calendar and round-trip
@@ -819,8 +820,8 @@ theorem signed_offset_padded_example :
 /-! ## Durations -/
 
 /-- `{duration {durationformat n}} = n` for every whole number of seconds whose nanosecond count
-fits int64 (|n| ≤ 9223372036); beyond, `time.Duration(secs) * time.Second` wraps (modelled, and
-compared with the real code, but no round trip is claimed there). -/
+fits int64 (|n| ≤ 9223372036); beyond, `time.Duration(secs) * time.Second` wraps – what comes back
+there is stated by `durationformat_roundtrip_wrapped` (round 4d). -/
 theorem duration_roundtrip (n : Int) (h1 : -9223372036 ≤ n) (h2 : n ≤ 9223372036) :
     ∃ b, durationFormat (itoa n) = .val b ∧ duration b = .val (itoa n) := by
   obtain ⟨b, hb, hp⟩ := parseDuration_durationString n h1 h2
@@ -848,6 +849,41 @@ theorem durationformat_spec (n : Int) (h0 : n ≠ 0) (h1 : -9223372036 ≤ n) (h
   · simp only [durationFormat, atoi_itoa n hin, hw, durationString_seconds n h0]
   · simp only [secondsOfHms, hmsOf]; omega
   · simp only [hmsOf]; omega
+
+/-- `ParseDuration ∘ Duration.String = id` on EVERY int64 nanosecond count (round 4d): sub-second
+magnitudes in `ns` / `µs` / `ms` (`1.024µs`, `999.999488ms`), fractional seconds (`2562047h47m16.854775807s`),
+hour and minute groups, `MinInt64` (`-2562047h47m16.854775808s`, whose magnitude 2^63 only the negative
+sign makes acceptable).  The fractions go through the binary64 term of `ParseDuration`; it is exact here
+because the printed fraction never has more digits than the unit has decimal places. -/
+theorem duration_string_roundtrip (d : Int) (h1 : -9223372036854775808 ≤ d) (h2 : d ≤ 9223372036854775807) :
+    ∃ b, durationString d = some b ∧ parseDuration b = .ok d :=
+  parseDuration_durationString_all d h1 h2
+
+/-- `{duration {durationformat n}}` for EVERY int64 `n` – also where `time.Duration(n) * time.Second`
+wraps: the answer is the whole seconds (toward zero) of the WRAPPED product `n·10^9 mod 2^64`; in
+particular `{durationformat n}` is never declined by the model any more (an `n` whose product lands
+below one second – `n ≡ j·(5^9)⁻¹ (mod 2^55)`, |512·j| < 10^9 – prints `512ns`, `1.024µs` … and reads back as 0). -/
+theorem durationformat_roundtrip_wrapped (n : Int) (hin : inInt64 n = true) :
+    ∃ b, durationFormat (itoa n) = .val b
+      ∧ parseDuration b = .ok (wrap64 (n * 1000000000))
+      ∧ duration b = .val (itoa (Int.tdiv (wrap64 (n * 1000000000)) 1000000000)) := by
+  have hr : -9223372036854775808 ≤ wrap64 (n * 1000000000) ∧ wrap64 (n * 1000000000) ≤ 9223372036854775807 := by
+    unfold wrap64; omega
+  obtain ⟨b, hb, hp⟩ := parseDuration_durationString_all _ hr.1 hr.2
+  refine ⟨b, ?_, hp, ?_⟩
+  · simp only [durationFormat, atoi_itoa n hin, hb]
+  · simp only [duration, hp]
+
+/-- The sub-second branch on concrete values (kernel-evaluated): texts and what `{duration}` reads back. -/
+theorem duration_subsecond_example :
+    durationString 512 = some (asc "512ns") ∧ durationString (-1024) = some ([45] ++ asc "1.024" ++ [0xC2, 0xB5, 115])
+    ∧ durationString 999999488 = some (asc "999.999488ms") ∧ durationString 1000 = some ([49, 0xC2, 0xB5, 115])
+    ∧ durationString (-9223372036854775808) = some (asc "-2562047h47m16.854775808s")
+    ∧ wrap64 (36028797018963968 * 1000000000) = 0
+    ∧ durationFormat (asc "36028797018963968") = .val (asc "0s")
+    ∧ parseDuration (asc "999.999488ms") = .ok 999999488
+    ∧ parseDuration (asc "-2562047h47m16.854775808s") = .ok (-9223372036854775808) := by
+  decide +kernel
 
 /-! ## Durations with a fraction (`1.5h`, `0.25s`) -/
 
